@@ -205,6 +205,7 @@ void harness (void)
   POST (IMP (g_sup_calls == 1 && !g_sup_result && ret, G.last == SPEC_REPLY_REJECTED), "EXTERNAL: desired identity not covered by the socket credentials => REJECTED");
   POST (IMP (ST (auth) == S_WFB && auth->credentials->unix_uid != DBUS_UID_UNSET && auth->authorized_identity->unix_uid != DBUS_UID_UNSET, auth->authorized_identity->unix_uid == auth->credentials->unix_uid),
         "EXTERNAL: granted uid is the kernel-reported uid");
+  POST (IMP (ST (auth) == S_WFB, !CRED_ANON (auth->authorized_identity) && !CRED_ANON (auth->desired_identity)), "EXTERNAL: OK only for an identity that names a user: an empty (anonymous) identity, e.g. the uid spelling of DBUS_UID_UNSET, is REJECTED");
   POST (IMP (ret && G.last == SPEC_REPLY_DATA, data_len == 0 && old.identity_len == 0 && auth->already_asked_for_initial_response && CRED_EQ (auth->authorized_identity, &old.authz)), "EXTERNAL: a challenge is sent only to ask once for a missing identity");
   if (ret && ST (auth) == S_WFB && data_len > 0) REACH ("ok-with-identity");
   if (ret && ST (auth) == S_WFB && data_len == 0) REACH ("ok-from-socket-credentials");
